@@ -4,6 +4,7 @@ import (
 	"errors"
 	"fmt"
 	"strings"
+	"time"
 
 	"github.com/csgura/fp"
 	"github.com/csgura/fp/as"
@@ -223,9 +224,13 @@ func (g *gctx) leaf() *node {
 	}
 }
 
-var unaryOps = []string{"Map", "m.Map", "FlatMap", "m.FlatMap", "Flatten", "Transform", "TransformWith", "Recover", "RecoverCase", "RecoverWith", "RecoverCaseWith", "Or", "OrFuture", "Failed", "Lift", "LiftM", "Method1", "FlatMethod1", "Method2", "FlatMethod2", "Method3", "Compose", "Compose3", "Replace", "FlapMap", "Chain1", "Applicative1"}
+var unaryOps = []string{"Map", "m.Map", "FlatMap", "m.FlatMap", "Flatten", "Transform", "TransformWith", "Recover", "RecoverCase", "RecoverWith", "RecoverCaseWith", "Or", "OrFuture", "Failed", "Lift", "LiftM", "Method1", "FlatMethod1", "Method2", "FlatMethod2", "Method3", "Compose", "Compose3", "Replace", "FlapMap", "Chain1", "Applicative1",
+	// second batch (functions the coverage measurement showed as never called)
+	"Compose2", "ComposeOption", "ComposeTry", "ComposePure", "MapSeqLift", "MapSliceLift", "Flap", "Flap2", "FlatFlapMap", "Func0", "Await",
+	"m.OnSuccess", "m.OnFailure", "m.Foreach", "m.String"}
 var binaryOps = []string{"Map2", "Zip", "Ap", "ApFunc", "LiftA2", "LiftM2", "Chain2", "Applicative2", "With"}
-var naryOps = []string{"Zip3", "LiftA3", "LiftA4", "LiftM3", "Sequence", "SequenceIterator", "Traverse", "TraverseSeq", "TraverseSlice", "FoldFuture.iterator", "FoldFuture.seq", "FoldFuture.list", "Chain3", "Applicative3", "FlatMapTraverseSeq"}
+var naryOps = []string{"Zip3", "LiftA3", "LiftA4", "LiftM3", "Sequence", "SequenceIterator", "Traverse", "TraverseSeq", "TraverseSlice", "FoldFuture.iterator", "FoldFuture.seq", "FoldFuture.list", "Chain3", "Applicative3", "FlatMapTraverseSeq",
+	"TraverseFunc", "TraverseSeqFunc", "TraverseSliceFunc", "FlatMapTraverseSlice"}
 
 func (g *gctx) allowed(ops []string) []string {
 	if g.ops == nil {
@@ -321,7 +326,7 @@ func (g *gctx) mk(op string, budget int) *node {
 				}
 			},
 			ref: func(st []R) R { return bind(a.ref(st), func(v int) R { return okR(f.Call(v)) }) }}
-	case "FlatMap", "m.FlatMap", "Flatten", "LiftM", "Compose", "Compose3":
+	case "FlatMap", "m.FlatMap", "Flatten", "LiftM", "Compose", "Compose2", "Compose3":
 		a := g.gen(budget / 2)
 		ks := g.kids(rapid.IntRange(1, 2).Draw(t, "nk"), budget/2)
 		f := g.intFn()
@@ -345,6 +350,8 @@ func (g *gctx) mk(op string, budget int) *node {
 					return future.LiftM(k, execOf(x)...)(a.build(e))
 				case "Compose":
 					return future.Compose(func(fp.Unit) fp.Future[int] { return a.build(e) }, k, execOf(x)...)(fp.Unit{})
+				case "Compose2":
+					return future.Compose2(func(fp.Unit) fp.Future[int] { return a.build(e) }, k, execOf(x)...)(fp.Unit{})
 				default:
 					return future.Compose3(func(fp.Unit) fp.Future[int] { return a.build(e) }, func(v int) fp.Future[int] { return future.Successful(f.Call(v)) }, k, execOf(x)...)(fp.Unit{})
 				}
@@ -471,7 +478,7 @@ func (g *gctx) mk(op string, budget int) *node {
 				}
 				return okR(errIdxR(r))
 			}}
-	case "Method1", "Method2", "Method3", "FlapMap":
+	case "Method1", "Method2", "Method3", "FlapMap", "Flap", "Flap2":
 		a := g.gen(budget)
 		b, c := kit.TinyInt().Draw(t, "b"), kit.TinyInt().Draw(t, "c")
 		return &node{desc: fmt.Sprintf("%s%s(%s)(%d,%d)", op, xs, a.desc, b, c), size: sizeOf(a), srcs: a.srcs,
@@ -481,6 +488,16 @@ func (g *gctx) mk(op string, budget int) *node {
 					return future.Method1(a.build(e), comb, execOf(x)...)(b)
 				case "FlapMap":
 					return future.FlapMap(comb, a.build(e), execOf(x)...)(b)
+				case "Flap":
+					// Flap(tf)(b) = Ap(tf, Successful(b))
+					tf := future.Map(a.build(e), func(p int) fp.Func1[int, int] { return func(q int) int { return comb(p, q) } })
+					return future.Flap(tf, execOf(x)...)(b)
+				case "Flap2":
+					// Flap2(tf)(b)(c) = Flap(Ap(tf, Successful(b)))(c)
+					tf := future.Map(a.build(e), func(p int) fp.Func1[int, fp.Func1[int, int]] {
+						return func(q int) fp.Func1[int, int] { return func(r int) int { return comb(comb(p, q), r) } }
+					})
+					return future.Flap2(tf, execOf(x)...)(b)(c)
 				case "Method2":
 					return future.Method2(a.build(e), func(p, q, r int) int { return comb(comb(p, q), r) }, execOf(x)...)(b, c)
 				default:
@@ -489,13 +506,13 @@ func (g *gctx) mk(op string, budget int) *node {
 			},
 			ref: func(st []R) R {
 				return bind(a.ref(st), func(v int) R {
-					if op == "Method1" || op == "FlapMap" {
+					if op == "Method1" || op == "FlapMap" || op == "Flap" {
 						return okR(comb(v, b))
 					}
 					return okR(comb(comb(v, b), c))
 				})
 			}}
-	case "FlatMethod1", "FlatMethod2":
+	case "FlatMethod1", "FlatMethod2", "FlatFlapMap":
 		a := g.gen(budget / 2)
 		ks := g.kids(rapid.IntRange(1, 2).Draw(t, "nk"), budget/2)
 		b := kit.TinyInt().Draw(t, "b")
@@ -504,16 +521,223 @@ func (g *gctx) mk(op string, budget int) *node {
 				if op == "FlatMethod1" {
 					return future.FlatMethod1(a.build(e), func(p, q int) fp.Future[int] { return pickKid(ks, p+q).build(e) }, execOf(x)...)(b)
 				}
+				if op == "FlatFlapMap" {
+					// FlatFlapMap(fab, ta)(b) = Flatten(Map(ta, a => fab(a,b)))
+					return future.FlatFlapMap(func(p, q int) fp.Future[int] { return pickKid(ks, p+q).build(e) }, a.build(e), execOf(x)...)(b)
+				}
 				return future.FlatMethod2(a.build(e), func(p, q, r int) fp.Future[int] { return pickKid(ks, p+q+r).build(e) })(b, 1)
 			},
 			ref: func(st []R) R {
 				return bind(a.ref(st), func(v int) R {
-					if op == "FlatMethod1" {
+					if op == "FlatMethod1" || op == "FlatFlapMap" {
 						return pickKid(ks, v+b).ref(st)
 					}
 					return pickKid(ks, v+b+1).ref(st)
 				})
 			}}
+	case "ComposeOption", "ComposeTry":
+		// ComposeOption(f1,f2)(v) = FlatMap(FromOption(f1(v)), f2); ComposeTry likewise with FromTry.
+		// The composed arrow is lifted over the operand a by FlatMap (as for "With").
+		a := g.gen(budget / 2)
+		ks := g.kids(rapid.IntRange(1, 2).Draw(t, "nk"), budget/2)
+		f := g.intFn()
+		mode := rapid.IntRange(0, 1).Draw(t, "mode") // 1: f1 is empty / fails on multiples of 3
+		er := rapid.SampledFrom(kit.Errs[5:8]).Draw(t, "e")
+		empty := func(v int) bool { return mode == 1 && v%3 == 0 }
+		all := append([]*node{a}, ks...)
+		return &node{desc: fmt.Sprintf("%s%s(%s, mode%d/%s, %v, w=>[%s])", op, xs, a.desc, mode, er, f, descs(ks)), size: sizeOf(all...), srcs: mergeSrcs(all...),
+			build: func(e *env) fp.Future[int] {
+				k := func(w int) fp.Future[int] { return pickKid(ks, w).build(e) }
+				if op == "ComposeOption" {
+					return future.FlatMap(a.build(e), future.ComposeOption(func(v int) fp.Option[int] {
+						if empty(v) {
+							return fp.None[int]()
+						}
+						return fp.Some(f.Call(v))
+					}, k, execOf(x)...))
+				}
+				return future.FlatMap(a.build(e), future.ComposeTry(func(v int) fp.Try[int] {
+					if empty(v) {
+						return fp.Failure[int](er)
+					}
+					return fp.Success(f.Call(v))
+				}, k, execOf(x)...))
+			},
+			ref: func(st []R) R {
+				return bind(a.ref(st), func(v int) R {
+					if empty(v) {
+						if op == "ComposeOption" {
+							return failR(fp.ErrOptionEmpty)
+						}
+						return failR(er)
+					}
+					return pickKid(ks, f.Call(v)).ref(st)
+				})
+			}}
+	case "ComposePure":
+		// ComposePure(f)(v) = Successful(f(v)), lifted over a by FlatMap
+		a := g.gen(budget)
+		f := g.intFn()
+		return &node{desc: fmt.Sprintf("ComposePure%s(%s,%v)", xs, a.desc, f), size: sizeOf(a), srcs: a.srcs,
+			build: func(e *env) fp.Future[int] {
+				return future.FlatMap(a.build(e), future.ComposePure(f.Call, execOf(x)...))
+			},
+			ref: func(st []R) R { return bind(a.ref(st), func(v int) R { return okR(f.Call(v)) }) }}
+	case "MapSeqLift", "MapSliceLift", "FlatMapTraverseSlice":
+		// the future of a slice is derived from an int operand: a => items ++ [a]
+		traverse := op == "FlatMapTraverseSlice"
+		ab := budget
+		if traverse {
+			ab = budget / 2
+		}
+		a := g.gen(ab)
+		items := rapid.SliceOfN(rapid.IntRange(0, 5), 0, 3).Draw(t, "items")
+		f := g.intFn()
+		ks := []*node{}
+		if traverse {
+			ks = g.kids(rapid.IntRange(1, 3).Draw(t, "nk"), budget/2)
+		}
+		all := append([]*node{a}, ks...)
+		with := func(v int) []int { return append(append([]int{}, items...), v) }
+		d := fmt.Sprintf("%s%s(%s=>%v++[a], %v)", op, xs, a.desc, items, f)
+		if traverse {
+			d = fmt.Sprintf("%s%s(%s=>%v++[a], i=>[%s])", op, xs, a.desc, items, descs(ks))
+		}
+		return &node{desc: d, size: sizeOf(all...), srcs: mergeSrcs(all...),
+			build: func(e *env) fp.Future[int] {
+				switch op {
+				case "MapSeqLift":
+					ta := future.Map(a.build(e), func(v int) fp.Seq[int] { return with(v) })
+					return future.Map(future.MapSeqLift(ta, f.Call, execOf(x)...), func(s fp.Seq[int]) int { return foldSlice(s) })
+				case "MapSliceLift":
+					ta := future.Map(a.build(e), with)
+					return future.Map(future.MapSliceLift(ta, f.Call, execOf(x)...), foldSlice)
+				default:
+					ta := future.Map(a.build(e), with)
+					fn := func(i int) fp.Future[int] { return pickKid(ks, i).build(e) }
+					return future.Map(future.FlatMapTraverseSlice(ta, fn, execOf(x)...), foldSlice)
+				}
+			},
+			ref: func(st []R) R {
+				return bind(a.ref(st), func(v int) R {
+					acc := okR(7)
+					for _, i := range with(v) {
+						i := i
+						acc = bind(acc, func(p int) R {
+							if !traverse {
+								return okR(comb(p, f.Call(i)))
+							}
+							return bind(pickKid(ks, i).ref(st), func(q int) R { return okR(comb(p, q)) })
+						})
+					}
+					return acc
+				})
+			}}
+	case "Func0":
+		// Func0(body)(Unit) = Apply2(body): always completes, with a Failure if body returns an error or panics.
+		a := g.gen(budget)
+		f := g.intFn()
+		mode := rapid.IntRange(0, 2).Draw(t, "mode") // on multiples of 3 -- 1: body returns an error, 2: body panics
+		er := rapid.SampledFrom(kit.Errs[5:8]).Draw(t, "e")
+		return &node{desc: fmt.Sprintf("Func0%s(%s, mode%d/%s, %v)", xs, a.desc, mode, er, f), size: sizeOf(a), srcs: a.srcs,
+			build: func(e *env) fp.Future[int] {
+				return future.FlatMap(a.build(e), func(v int) fp.Future[int] {
+					return future.Func0(func() (int, error) {
+						if v%3 == 0 && mode == 1 {
+							return 0, er
+						}
+						if v%3 == 0 && mode == 2 {
+							panic("boom")
+						}
+						return f.Call(v), nil
+					}, execOf(x)...)(fp.Unit{})
+				})
+			},
+			ref: func(st []R) R {
+				return bind(a.ref(st), func(v int) R {
+					if v%3 == 0 && mode == 1 {
+						return failR(er)
+					}
+					if v%3 == 0 && mode == 2 {
+						return panicR()
+					}
+					return okR(f.Call(v))
+				})
+			}}
+	case "Await":
+		// Await blocks the calling goroutine on a channel, which a cooperative scheduler thread must
+		// never do; it is therefore only applied to a future that is already complete (inside that
+		// future's own completion callback), where it has to return the result without waiting. Should
+		// it wait nevertheless, the short timeout turns that into a 408 failure (wrong value), not a hang.
+		a := g.gen(budget)
+		f := g.intFn()
+		return &node{desc: fmt.Sprintf("Await%s(%s,%v)", xs, a.desc, f), size: sizeOf(a), srcs: a.srcs,
+			build: func(e *env) fp.Future[int] {
+				fa := a.build(e)
+				return future.TransformWith(fa, func(fp.Try[int]) fp.Future[int] {
+					return future.Map(future.FromTry(future.Await(fa, 50*time.Millisecond)), f.Call)
+				}, execOf(x)...)
+			},
+			ref: func(st []R) R { return bind(a.ref(st), func(v int) R { return okR(f.Call(v)) }) }}
+	case "m.OnSuccess", "m.Foreach", "m.OnFailure":
+		// the callback-registering methods, turned into a derived future through a harness promise:
+		// m.OnSuccess / m.Foreach behave like Map (failure forwarded by OnFailure), m.OnFailure like Recover
+		// (success forwarded by OnSuccess). A second delivery panics in the callback (signature "panic").
+		a := g.gen(budget)
+		f := g.intFn()
+		return &node{desc: fmt.Sprintf("%s%s(%s,%v)", op, xs, a.desc, f), size: sizeOf(a), srcs: a.srcs,
+			build: func(e *env) fp.Future[int] {
+				fa := a.build(e)
+				np := fp.NewPromise[int]()
+				once := func(first bool) {
+					if !first {
+						panic(op + ": a second callback was delivered for the same future")
+					}
+				}
+				switch op {
+				case "m.OnSuccess":
+					fa.OnSuccess(func(v int) { once(np.Success(f.Call(v))) }, execOf(x)...)
+					fa.OnFailure(func(err error) { once(np.Failure(err)) }, execOf(x)...)
+				case "m.Foreach":
+					fa.Foreach(func(v int) { once(np.Success(f.Call(v))) }, execOf(x)...)
+					fa.OnFailure(func(err error) { once(np.Failure(err)) }, execOf(x)...)
+				default:
+					fa.OnFailure(func(err error) { once(np.Success(400 + errIdx(err))) }, execOf(x)...)
+					fa.OnSuccess(func(v int) { once(np.Success(f.Call(v))) }, execOf(x)...)
+				}
+				return np.Future()
+			},
+			ref: func(st []R) R {
+				r := a.ref(st)
+				if r.Bot {
+					return bot
+				}
+				if r.Ok {
+					return okR(f.Call(r.V))
+				}
+				if op == "m.OnFailure" {
+					return okR(400 + errIdxR(r))
+				}
+				return r
+			}}
+	case "m.String":
+		// String() must describe the state the future is in: "(not completed)" or the completed result.
+		a := g.gen(budget)
+		f := g.intFn()
+		return &node{desc: fmt.Sprintf("m.String%s(%s,%v)", xs, a.desc, f), size: sizeOf(a), srcs: a.srcs,
+			build: func(e *env) fp.Future[int] {
+				fa := a.build(e)
+				if s := fa.String(); !strings.HasSuffix(s, "(not completed)") && !fa.IsCompleted() {
+					panic(fmt.Sprintf("String() = %q for a future that is not completed", s))
+				}
+				return future.Map(fa, func(v int) int {
+					if s, want := fa.String(), fmt.Sprintf("Future(Success(%d))", v); s != want {
+						panic(fmt.Sprintf("String() = %q inside the success callback, want %q", s, want))
+					}
+					return f.Call(v)
+				}, execOf(x)...)
+			},
+			ref: func(st []R) R { return bind(a.ref(st), func(v int) R { return okR(f.Call(v)) }) }}
 	case "Chain1", "Applicative1":
 		a := g.gen(budget)
 		f := g.intFn()
@@ -681,7 +905,7 @@ func (g *gctx) mk(op string, budget int) *node {
 				}
 				return acc
 			}}
-	case "Traverse", "TraverseSeq", "TraverseSlice", "FoldFuture.iterator", "FoldFuture.seq", "FoldFuture.list", "FlatMapTraverseSeq":
+	case "Traverse", "TraverseSeq", "TraverseSlice", "FoldFuture.iterator", "FoldFuture.seq", "FoldFuture.list", "FlatMapTraverseSeq", "TraverseFunc", "TraverseSeqFunc", "TraverseSliceFunc":
 		items := rapid.SliceOfN(rapid.IntRange(0, 5), 0, 4).Draw(t, "items")
 		ks := g.kids(rapid.IntRange(1, 3).Draw(t, "nk"), budget)
 		return &node{desc: fmt.Sprintf("%s%s(%v, i=>[%s])", op, xs, items, descs(ks)), size: sizeOf(ks...), srcs: mergeSrcs(ks...),
@@ -697,6 +921,12 @@ func (g *gctx) mk(op string, budget int) *node {
 					return future.Map(future.TraverseSeq(items, fn, execOf(x)...), func(s fp.Seq[int]) int { return foldSlice(s) })
 				case "TraverseSlice":
 					return future.Map(future.TraverseSlice(items, fn, execOf(x)...), foldSlice)
+				case "TraverseFunc":
+					return future.Map(future.TraverseFunc(fn, execOf(x)...)(iterator.FromSeq(items)), func(it fp.Iterator[int]) int { return foldSlice(it.ToSeq()) })
+				case "TraverseSeqFunc":
+					return future.Map(future.TraverseSeqFunc(fn, execOf(x)...)(items), func(s fp.Seq[int]) int { return foldSlice(s) })
+				case "TraverseSliceFunc":
+					return future.Map(future.TraverseSliceFunc(fn, execOf(x)...)(items), foldSlice)
 				case "FlatMapTraverseSeq":
 					return future.Map(future.FlatMapTraverseSeq(future.Successful(fp.Seq[int](items)), fn, execOf(x)...), func(s fp.Seq[int]) int { return foldSlice(s) })
 				case "FoldFuture.iterator":
